@@ -281,7 +281,7 @@ def run(chk, tier, seed):
                 events.append(classify(o, argv, "mmbslot", dict(status=st)))
         # standard output that cannot be written (/dev/full, closed): the outcome alphabet still holds - in particular a failure
         # status comes with a diagnostic, whichever command noticed and however much it had to write
-        big = discs.build("DFS", [mkdisc.entry("BIG", length=20000, start=100)] + [mkdisc.entry("F%02d" % i_, length=10, start=10 + i_) for i_ in range(30)],
+        big = discs.build("DFS", [mkdisc.entry("BIG", length=20000, start=100)] + [mkdisc.entry("F%02d" % i_, length=10, start=45 - i_) for i_ in range(30)],
                           scratch, "bigout", nsectors=800, salt=6, title=b"BIGOUT")
         ojobs = []
         for cmd in (["cat"], ["info", "#.*"], ["type", "BIG"], ["type", "F01"], ["dump", "BIG"], ["list", "BIG"], ["sector-map"], ["space"], ["free"], ["show-titles"],
